@@ -27,8 +27,9 @@ FILE_FAMILIES = {
 class World:
     """uid <-> text table for one run."""
 
-    def __init__(self, family="plain", files="plain", init_kind="base"):
+    def __init__(self, family="plain", files="plain", init_kind="base", salt=0):
         self.family = family
+        self.salt = salt
         self.files = FILE_FAMILIES[files]
         self.file_family = files
         self.root = {}      # uid -> (root uid, revision)
@@ -55,9 +56,9 @@ class World:
         fam = self.family
         mid = "m%dx%d" % (k, r)
         if fam == "multibyte":
-            return "λ%d 日本語%d %s é%d ☃" % (r, r, mid, r)
+            return "λ%d 日本語%d %s é%d ☃%d" % (r, r, mid, r, r)
         if fam == "hostile":
-            pre = HOSTILE_PREFIX[r % len(HOSTILE_PREFIX)]
+            pre = HOSTILE_PREFIX[(r + self.salt) % len(HOSTILE_PREFIX)]
             return "%sL%d alpha%d %s omega%d" % (pre, r, r, mid, r)
         if fam == "long":
             pad = hashlib.sha256(b"pad%d" % r).hexdigest() * 20
